@@ -31,6 +31,7 @@ def run(ctx):
     ctx.guard(rule_b, ctx, ix)
     ctx.guard(rule_c, ctx, ix)
     ctx.guard(rule_d, ctx, ix)
+    ctx.guard(rule_e, ctx, ix)
 
 
 def rule_a(ctx, ix):
@@ -58,9 +59,10 @@ def rule_a(ctx, ix):
            detail='BinaryComponentLink.__init__ stores its arguments as %s' % stores, where=init.where)
     # both operands read through the same view
     view = f.params[2] if len(f.params) > 2 else 'view'
-    reads = [n for n in ast.walk(f.node) if isinstance(n, ast.Subscript) and isinstance(n.slice, ast.Tuple) and len(n.slice.elts) == 2
-             and unparse(n.slice.elts[0]) in ('%s._left' % f.self_name, '%s._right' % f.self_name, 'left', 'right')]
-    ok = len(reads) == 2 and all(unparse(n.slice.elts[1]) == view and unparse(n.value) == f.params[1] for n in reads)
+    operands = ('%s._left' % f.self_name, '%s._right' % f.self_name, 'left', 'right')
+    reads = [n for n in ast.walk(f.node) if isinstance(n, ast.Subscript) and _input_read(n, view) is not None
+             and _input_read(n, view) in operands]
+    ok = len(reads) == 2 and all(unparse(n.value) == f.params[1] for n in reads)
     ctx.ob(R, f.construct, 'both operands are read from the same dataset with the same view', ok,
            detail='BinaryComponentLink.compute does not read both operands as data[operand, view]: %s' % [unparse(n) for n in reads],
            where=f.where)
@@ -107,6 +109,64 @@ def rule_a(ctx, ix):
     ok = sum(1 for c in calls_in(g.node) if call_name(c) == 'replace_ids' and 'super' not in unparse(c.func)) >= 2
     ctx.ob(R, g.construct, 'replace_ids recurses into operand links', ok,
            detail='BinaryComponentLink.replace_ids does not recurse into operands that are links themselves', where=g.where)
+
+
+def _input_read(sub, view):
+    """``data[X, view]`` or ``data[join_component_view(X, view)]`` -> text of X (the packing helper is checked by C14.e)."""
+    sl = sub.slice
+    if isinstance(sl, ast.Tuple) and len(sl.elts) == 2 and unparse(sl.elts[1]) == view:
+        return unparse(sl.elts[0])
+    if isinstance(sl, ast.Call) and call_name(sl) == 'join_component_view' and len(sl.args) == 2 and unparse(sl.args[1]) == view:
+        return unparse(sl.args[0])
+    return None
+
+
+def rule_e(ctx, ix):
+    """A link evaluates each of its inputs on exactly the requested view."""
+    from ..util import guard_chain, parent_map
+    R = 'C14.e'
+    ctx.describe(R, 'user-function links read every input with the requested view; the key-packing helper keeps the view whole', floor=2)
+    cl = ix.cls('glue.core.component_link.ComponentLink')
+    f = cl.resolve_func('compute')
+    view = f.params[2]
+    reads = [n for n in ast.walk(f.node) if isinstance(n, ast.Subscript) and unparse(n.value) == f.params[1]]
+    ok = len(reads) == 1 and _input_read(reads[0], view) is not None
+    if ok:
+        var = _input_read(reads[0], view)
+        pm = parent_map(f.node)
+        comp = pm.get(id(reads[0]))
+        ok = isinstance(comp, ast.ListComp) and len(comp.generators) == 1 and unparse(comp.generators[0].target) == var and \
+            unparse(comp.generators[0].iter) == '%s._from' % f.self_name and not comp.generators[0].ifs
+    ctx.ob(R, f.construct, 'every input of the link is read from the dataset with the requested view', ok,
+           detail='ComponentLink.compute no longer reads each of its inputs as data[input, view]: %s' % [unparse(n) for n in reads], where=f.where)
+    j = ix.func('glue.core.util.join_component_view')
+    comp_p, view_p = j.params[0], j.params[1]
+    pm = parent_map(j.node)
+    unpack = []
+    for n in ast.walk(j.node):
+        if isinstance(n, ast.Call) and call_name(n) in ('extend',) and n.args and any(isinstance(x, ast.Name) and x.id == view_p for x in ast.walk(n.args[0])):
+            unpack.append(n)
+        elif isinstance(n, ast.Starred) and any(isinstance(x, ast.Name) and x.id == view_p for x in ast.walk(n.value)):
+            unpack.append(n)
+        elif isinstance(n, ast.BinOp) and isinstance(n.op, ast.Add) and any(isinstance(x, ast.Name) and x.id == view_p for x in ast.walk(n.right)):
+            unpack.append(n)
+        elif isinstance(n, ast.Call) and call_name(n) in ('tuple', 'list') and n.args and isinstance(n.args[0], ast.Name) and n.args[0].id == view_p \
+                and not isinstance(pm.get(id(n)), ast.BinOp):
+            unpack.append(n)
+    guarded = []
+    for u in unpack:
+        tests = [unparse(g.test).replace(' ', '') for g, br in guard_chain(pm, u, j.node) if isinstance(g, ast.If) and br == 'body']
+        guarded.append(any(t == 'isinstance(%s,tuple)' % view_p for t in tests))
+    rets = [unparse(r.value).replace(' ', '') for r in returns_of(j) if r.value is not None]
+    whole = any(t in ('(%s,%s)' % (comp_p, view_p), 'tuple([%s,%s])' % (comp_p, view_p)) for t in rets)
+    ctx.idiom(R, j.construct, 'only a tuple view is spliced into the key; any other view (list, index array, mask, scalar) stays one element',
+              accepted=all(guarded) and whole and comp_p in rets,
+              absent=bool(unpack) and not all(guarded),
+              detail_absent='join_component_view splices the elements of the view into the key (`%s`) without testing that the view is a '
+                            'tuple: a list, index-array or boolean-mask view is taken apart into separate indices, so a derived attribute '
+                            'evaluated on such a view is not function(inputs)[view]'
+                            % (unparse(unpack[guarded.index(False)]) if unpack and not all(guarded) else ''),
+              shape='returns %s' % rets, where=j.where)
 
 
 def rule_b(ctx, ix):
